@@ -1,3 +1,4 @@
+import JsonVerif.Lemmas.FromValue
 import JsonVerif.Lemmas.Serde
 /-!
 # C17 — Value's own Serialize/Deserialize implementations preserve the JSON value
@@ -44,11 +45,35 @@ theorem C17_duplicates_witness :
     okEq (toValue (.object [(['a'], .null), (['b'], .bool true), (['a'], .bool false), (['a'], .string ['z'])]))
       (.object [(['a'], .string ['z']), (['b'], .bool true)]) = true := by decide +kernel
 
-/-- Deserialization clause: full statement (not modelled in Lean: `Deserialize for Value` hands
-    numbers to json-number's deserializer, whose float path is lexical's lossy parser). Tested
-    against the numbers themselves; the >19-digit one-ulp class is a known finding. -/
-def C17_deserialize_full (fromValue : JValue → Option JValue) (sameNumbers : JValue → JValue → Prop) : Prop :=
-  ∀ v, ∃ w, fromValue v = some w ∧ sameNumbers v w
+/-- **Deserialization** (`from_value::<Value>`, model of `Deserialize for Value` driven by
+    `Deserializer for Value`): a value in which no object has duplicate keys or starts with the
+    private number token comes back with the same structure, strings, booleans, nulls and key order,
+    every number passed through json-number's visitor round trip (`numBack`). -/
+theorem C17_deserialize (ft : List Char → Option (List Char)) (v : JValue) (h : DePlain v) :
+    fromValue ft v = .ok (backValue ft v) :=
+  fromValue_plain ft v h
+
+/-- … and that round trip keeps the integer: a number json-number reads as a u64 (an i64) comes back
+    as a text it reads as the same u64 (i64). Every other number goes through the double nearest to
+    it as lexical computes it (`ft`, a parameter: the known finding C17-de-lossy-ulp lives there). -/
+theorem C17_numbers_same_integer (ft : List Char → Option (List Char)) (n : List Char) :
+    (∀ u, asU64 n = some u → ∃ t, numBack ft n = .number t ∧ asU64 t = some u) ∧
+    (∀ i, asU64 n = none → asI64 n = some i → ∃ t, numBack ft n = .number t ∧ asI64 t = some i) ∧
+    (asU64 n = none → asI64 n = none →
+      (∀ t, ft n = some t → numBack ft n = .number t) ∧ (ft n = none → numBack ft n = .null)) :=
+  ⟨fun u h => numBack_u64 ft n u h, fun i h0 h => numBack_i64 ft n i h0 h, fun h0 h1 => numBack_f64 ft n h0 h1⟩
+
+/-- The hypothesis on the first key cannot be dropped here either: an object starting with the
+    private number token is read as that number, or rejected (same known finding). -/
+theorem C17_magic_key_deserialize :
+    deResEq (fromValue (fun _ => none) (.object [(numberToken, .string ['1', '.', '5'])])) (.ok (.number ['1', '.', '5'])) = true ∧
+    deResEq (fromValue (fun _ => none) (.object [(numberToken, .null)])) (.error .invalidType) = true ∧
+    deResEq (fromValue (fun _ => none) (.object [(numberToken, .string ['1']), (['a'], .null)])) (.error .invalidLength) = true := by
+  decide +kernel
+
+example : DePlain (.object [(['k'], .array [.number ['1'], .object []]), (numberToken, .null)]) := by
+  simp only [DePlain, DePlainM, DePlainL, List.map_cons, List.map_nil, List.head?_cons, List.head?_nil, true_and, and_true]
+  decide +kernel
 
 /-! Non-vacuity of `Plain` (kernel-evaluated for numbers with a fraction; the integer path goes
     through `String.toInt?`, which the kernel does not unfold — it is exercised by the
